@@ -45,7 +45,16 @@ func (b Branch) Target(ctx context.Context, height int) (*big.Int, error) {
 	projected.Mul(work, big.NewInt(600))
 	projected.Div(projected, big.NewInt(int64(timeSpan)))
 
-	target := bitcoin.ConvertToWork(projected)
+	if projected.Sign() <= 0 {
+		return nil, errors.New("No projected work")
+	}
+
+	// Target = (2^256 - PW) / PW. This is not the same as the conversion from a target to its
+	// work, which is 2^256 / (target + 1).
+	target := &big.Int{}
+	target.Lsh(big.NewInt(1), 256)
+	target.Sub(target, projected)
+	target.Div(target, projected)
 
 	if target.Cmp(bitcoin.MaxWork) > 0 {
 		target.Set(bitcoin.MaxWork)
